@@ -10757,3 +10757,27 @@ let holds_C16_return_text pre f post =
                 | _ -> true))
         | _ -> true)
   else true
+
+(** val kf1_restorable : term -> bool **)
+
+let kf1_restorable t =
+  (&&)
+    ((&&)
+      ((&&) t.sctx.sc_origin ((||) t.sctx.sc_awm (negb ((||) t.awm t.pend))))
+      (negb ((&&) (Nat.ltb t.cur_row t.top) (Nat.leb t.top t.sctx.sc_row))))
+    (negb ((&&) (Nat.ltb t.bot t.cur_row) (Nat.leb t.sctx.sc_row t.bot)))
+
+(** val kf1_C11_narrow : term -> bool **)
+
+let kf1_C11_narrow t =
+  (&&) (kf1_C11 t) (negb (kf1_restorable t))
+
+(** val kf3b_C11 : term -> bool **)
+
+let kf3b_C11 t =
+  (&&) (negb (is_alt_b t))
+    ((||)
+      (N.leb (Npos (XI (XI (XI (XI (XI (XI (XI (XI (XI (XI (XI (XI (XI (XI
+        (XI XH)))))))))))))))) (N.of_nat t.asctx.sc_col))
+      (N.leb (Npos (XI (XI (XI (XI (XI (XI (XI (XI (XI (XI (XI (XI (XI (XI
+        (XI XH)))))))))))))))) (N.of_nat t.asctx.sc_row)))
